@@ -292,7 +292,7 @@ def rule_siblings(ctx: Ctx) -> None:
         sites = absence_by_none(fn.node, ("_dict",))
         if sites or mname in ("__getitem__", "to_array", "get_from_index", "has_index", "mask"):
             ctx.add("5-siblings", fn, sites[0][0] if sites else fn.node, not sites, "presence of an element is decided by key membership" if not sites else
-                    f"`{sites[0][1]}.get(...)` compared with None decides whether an element exists: an element whose stored value IS None reads back as masked in this backend only (FileArray returns None)", key=f"none-is-a-value DictArray.{mname}")
+                    f"`{sites[0][1]}.get(...)` compared with None (or taken by its truth value) decides whether an element exists: an element whose stored value IS None (or falsy) reads back as masked in this backend only (FileArray returns None)", key=f"none-is-a-value DictArray.{mname}")
     fg = fa.methods["__getitem__"]
     t = norm(fg.node)
     ctx.tri("5-siblings", fg, fg.node, "np.ma.masked" in t and "is_file()" in t, "np.ma.masked" not in t, "FileArray: a missing element reads as masked", "FileArray.__getitem__ never yields np.ma.masked: a missing element raises instead of reading as masked", key="file-missing")
